@@ -217,12 +217,18 @@ func body(t *testing.T, maxNodes int, thorough bool) func(tp *explore.Tape) expl
 		case strings.HasPrefix(stmt, "LOOKUP ") && qerr == nil && rows != want:
 			out.Violation = fmt.Sprintf("the lookup returned no error but an incomplete or wrong answer:\n%s\nexpected (single node with all data):\n%s", rows, want)
 			out.Sig = "lookup-silent-partial:" + strings.TrimPrefix(stmt, "LOOKUP ")
+			if faultsUsed(fk, coord) == "no-fault" {
+				out.Sig += ":no-fault" // a wrong answer with every node healthy is not the recorded finding
+			}
 		case strings.HasPrefix(stmt, "LOOKUP ") && qerr != nil && shardsOK && !midStream:
 			out.Violation = fmt.Sprintf("every shard has a healthy owner, but the lookup failed: %v", qerr)
 			out.Sig = "lookup-failed-although-owners-available:" + strings.TrimPrefix(stmt, "LOOKUP ")
 		case qerr == nil && rows != want && rows == "":
 			out.Violation = "the query returned no error and no rows at all although data exists (field type lookup on unreachable owners has no error path):\nexpected:\n" + want
 			out.Sig = "silent-empty-result"
+			if faultsUsed(fk, coord) == "no-fault" {
+				out.Sig = "silent-partial-result:no-fault" // an empty answer with every node healthy is not the recorded finding
+			}
 		case qerr == nil && rows != want && midStream:
 			out.Violation = fmt.Sprintf("a remote owner died while streaming points and the query returned the truncated result without error:\n%s\nexpected:\n%s", rows, want)
 			out.Sig = "silent-truncated-stream"
